@@ -60,6 +60,14 @@ static struct reb_simulation* make(int k){
         case 8: r->integrator = REB_INTEGRATOR_JANUS; { int o[5] = {2,4,6,8,10}; r->ri_janus.order = o[(k/10)%5]; } break;
         case 9: r->integrator = REB_INTEGRATOR_WHFAST; r->ri_whfast.safe_mode = 0; r->ri_whfast.corrector = 11; break;
     }
+    // deferred synchronisation variants: unsafe mode, with and without keep_unsynchronized (synchronise-for-output paths use scratch buffers)
+    int v = (k/10)%6;
+    if (k%10==1 && v>=3){ r->ri_whfast.safe_mode = 0; r->ri_whfast.keep_unsynchronized = (v==4); r->ri_whfast.kernel = (v==5)?REB_WHFAST_KERNEL_LAZY:REB_WHFAST_KERNEL_DEFAULT; if (v==5){ r->ri_whfast.coordinates = REB_WHFAST_COORDINATES_JACOBI; r->ri_whfast.corrector = 17; } }
+    if (k%10==9){ r->ri_whfast.keep_unsynchronized = v%2; }
+    if (k%10==2 && v>=2){ r->ri_saba.safe_mode = 0; r->ri_saba.keep_unsynchronized = (v>=4); r->ri_whfast.safe_mode = 0; r->ri_whfast.keep_unsynchronized = (v>=4); }
+    if (k%10==5 && v>=3){ r->ri_mercurius.safe_mode = 0; }
+    if (k%10==3 && v>=3){ r->ri_eos.safe_mode = 0; }
+    if (k%10==4 && v==2){ r->gravity = REB_GRAVITY_COMPENSATED; }
     if ((k/10)%4 == 3 && (k%10==0 || k%10==1 || k%10==4)){
         if (r->integrator == REB_INTEGRATOR_WHFAST) r->ri_whfast.coordinates = REB_WHFAST_COORDINATES_JACOBI;
         reb_simulation_init_megno_seed(r, 1000 + k);   // variational particles; the default seed is taken from the clock
@@ -69,7 +77,22 @@ static struct reb_simulation* make(int k){
 
 static uint64_t job(int k){
     struct reb_simulation* r = make(k);
-    reb_simulation_steps(r, nsteps/2);
+    if ((k/10)%2){
+        // observers between steps: synchronise-for-output and diagnostics must neither disturb this run nor any other thread's
+        int done = 0;
+        double acc = 0;
+        while (done < nsteps/2){
+            int n = 1 + (k+done)%7;
+            if (done+n > nsteps/2) n = nsteps/2-done;
+            reb_simulation_steps(r, n);
+            done += n;
+            reb_simulation_synchronize(r);
+            acc += reb_simulation_energy(r);
+        }
+        if (acc != acc) printf("# nan energy in job %d\n", k);
+    }else{
+        reb_simulation_steps(r, nsteps/2);
+    }
     // churn: copy, serialise, restore, advance the copies a little, free
     struct reb_simulation* c = reb_simulation_copy(r);
     char* buf = NULL; size_t size = 0;
